@@ -815,8 +815,14 @@ else:
             self.start()
             return self
 
-        def __exit__(self, *args, **kwargs) -> None:
+        def __exit__(self, exc_type, *args, **kwargs) -> None:
+            if exc_type is not None:
+                # reading or processing failed: the writer would wait forever for
+                # the end of the queue and must not finalise the catalog
+                self.process.terminate()
             self.join()
+            if exc_type is None and self.process.exitcode != 0:
+                raise RuntimeError("writing the catalog failed, see the error above")
 
         def task(self) -> None:
             with CatalogWriter(
